@@ -117,7 +117,12 @@ func resolveColumn(v ssa.Value, depth int) (*colInfo, string) {
 						continue
 					}
 					if ok, _ := isRangeIndexOver(ia.Index, la.X); !ok {
-						continue
+						// or a counter that visits 0..n-1 with n the length of the column array
+						n, isCounter := rangeIndexConst(ia.Index)
+						at, isArr := deref(arr.Type()).Underlying().(*types.Array)
+						if !isCounter || !isArr || n != at.Len() {
+							continue
+						}
 					}
 					lit := literalStrings(la.X)
 					if lit == nil || int(k) >= len(lit) {
@@ -138,12 +143,14 @@ func resolveColumn(v ssa.Value, depth int) (*colInfo, string) {
 
 // literalStrings returns the elements of a []string{...} literal (go/ssa: array alloc, constant-index stores, slice).
 func literalStrings(v ssa.Value) []string {
-	sl, ok := v.(*ssa.Slice)
-	if !ok {
-		return nil
+	var arr *ssa.Alloc
+	switch x := v.(type) {
+	case *ssa.Slice:
+		arr, _ = x.X.(*ssa.Alloc)
+	case *ssa.Alloc:
+		arr = x // an array variable initialised by a literal
 	}
-	arr, ok := sl.X.(*ssa.Alloc)
-	if !ok {
+	if arr == nil {
 		return nil
 	}
 	at, ok := deref(arr.Type()).Underlying().(*types.Array)
@@ -159,10 +166,19 @@ func literalStrings(v ssa.Value) []string {
 		}
 		k, isC := constInt(ia.Index)
 		if !isC {
+			// reading an element at a computed index is fine; writing one is not a literal any more
+			for _, r2 := range *ia.Referrers() {
+				if st, ok := r2.(*ssa.Store); ok && st.Addr == ssa.Value(ia) {
+					return nil
+				}
+			}
+			continue
+		}
+		if k < 0 || k >= at.Len() {
 			return nil
 		}
 		for _, r2 := range *ia.Referrers() {
-			if st, ok := r2.(*ssa.Store); ok {
+			if st, ok := r2.(*ssa.Store); ok && st.Addr == ssa.Value(ia) {
 				s, isS := constString(st.Val)
 				if !isS {
 					return nil
